@@ -19,7 +19,31 @@ from dataclasses import dataclass, field
 VERIF = os.path.dirname(os.path.dirname(os.path.abspath(__file__)))
 REPO = os.environ.get("VERIF_REPO", "/repo")
 NPROC = int(os.environ.get("VERIF_NPROC", "0")) or min(16, os.cpu_count() or 1)
-SCRATCH_BASE = "/dev/shm" if os.path.isdir("/dev/shm") else "/tmp"
+
+
+def _scratch_base():
+    """One scratch root per run (under /dev/shm), removed when the top-level process exits: workers that are
+    killed by the watchdog cannot clean up after themselves."""
+    import atexit
+    import shutil
+    import tempfile
+
+    inherited = os.environ.get("VF_SCRATCH_RUN")
+    if inherited and os.path.isdir(inherited):
+        return inherited
+    base = tempfile.mkdtemp(prefix="vfrun-", dir="/dev/shm" if os.path.isdir("/dev/shm") else "/tmp")
+    os.environ["VF_SCRATCH_RUN"] = base
+    pid = os.getpid()
+
+    def _rm():
+        if os.getpid() == pid:
+            shutil.rmtree(base, ignore_errors=True)
+
+    atexit.register(_rm)
+    return base
+
+
+SCRATCH_BASE = _scratch_base()
 
 
 def install_repo_on_path():
